@@ -395,23 +395,33 @@ Definition method_of_bytes (b : bytes) : option api_method :=
 Definition relation_of_bytes (b : bytes) : option relation :=
   find_by_bytes relation_bytes b all_relations.
 
-Fixpoint string_of_bytes (b : bytes) : string :=
-  match b with
-  | [] => EmptyString
-  | x :: r => String (ascii_of_N x) (string_of_bytes r)
+Fixpoint bytes_of_string (s : string) : bytes :=
+  match s with
+  | EmptyString => []
+  | String a r => N_of_ascii a :: bytes_of_string r
+  end.
+
+(* per handler: (name, (store-scoped, (model read before authz, authorizes first))).  The table is
+   stored in computed form so that the extracted oracle does not depend on Coq strings;
+   AuthzProofs.handler_flags_computed proves it equal to its definition. *)
+Definition handler_flags_def : list (bytes * (bool * (bool * bool))) :=
+  map (fun h => (bytes_of_string (h_name h),
+                 (h_store_scoped h, (tr_model_read_before_authz h, authorizes_first h))))
+      c26_handlers.
+Definition handler_flags : list (bytes * (bool * (bool * bool))) :=
+  Eval vm_compute in handler_flags_def.
+
+Fixpoint find_flags (n : bytes) (l : list (bytes * (bool * (bool * bool)))) : option (bool * (bool * bool)) :=
+  match l with
+  | [] => None
+  | (k, v) :: r => if beqb k n then Some v else find_flags n r
   end.
 
 Definition handler_known_b (n : bytes) : bool :=
-  match find_handler (string_of_bytes n) c26_handlers with Some _ => true | None => false end.
+  match find_flags n handler_flags with Some _ => true | None => false end.
 Definition handler_store_scoped_b (n : bytes) : bool :=
-  match find_handler (string_of_bytes n) c26_handlers with Some h => h_store_scoped h | None => false end.
+  match find_flags n handler_flags with Some (a, _) => a | None => false end.
 Definition handler_model_read_before_authz_b (n : bytes) : bool :=
-  match find_handler (string_of_bytes n) c26_handlers with
-  | Some h => tr_model_read_before_authz h
-  | None => false
-  end.
+  match find_flags n handler_flags with Some (_, (b, _)) => b | None => false end.
 Definition handler_authorizes_first_b (n : bytes) : bool :=
-  match find_handler (string_of_bytes n) c26_handlers with
-  | Some h => authorizes_first h
-  | None => false
-  end.
+  match find_flags n handler_flags with Some (_, (_, c)) => c | None => false end.
